@@ -358,7 +358,7 @@ def shrink(case):
 
 # ====================================================================== execution
 def execute(case, seed, choices=None):
-    k = new_kernel(seed, {'policy': case.get('policy', 'random'), 'horizon': 200.0, 'max_steps': 60000,
+    k = new_kernel(seed, {'policy': case.get('policy', 'random'), 'horizon': 200.0, 'max_steps': 1500000,
                           'log_cap': 20000}, choices)
     seams.install_sync()
     SH.install_heap()
